@@ -664,6 +664,8 @@ example : ((runFEP [(0, 100), (1, 101)] [(5, fun g => g == 100), (9, fun g => g 
 theorem C16_code_facts :
     Gen.SyncFacts.errHandledLocally_gerProcessor = ["ProcessBlock#2"] ∧
     Gen.SyncFacts.rollbackGuard_ger = "shouldRollback" ∧
-    Gen.SyncFacts.rollbackFlagFlow_ger = ["shouldRollback := true", "Commit", "shouldRollback = false"] := by decide
+    Gen.SyncFacts.rollbackFlagFlow_ger = ["shouldRollback := true", "Commit", "shouldRollback = false"] ∧
+    -- `Reorg` (and every other writer) reports its failures: the only error turned into success is "no block yet"
+    Gen.SyncFacts.errToNil_gerProcessor = ["GetLastProcessedBlock#2"] := by decide
 
 end Aggkit.LastGER
